@@ -8,6 +8,7 @@ import (
 	"strings"
 	"time"
 
+	"0chain.net/core/config"
 	"github.com/0chain/common/core/currency"
 
 	"0chain.net/core/common"
@@ -59,14 +60,15 @@ func (gn *GlobalNode) Decode(input []byte) error {
 }
 
 func (gn *GlobalNode) updateConfig(fields map[string]string) error {
-	for key, value := range fields {
+	for _, key := range config.SortedKeys(fields) {
+		value := fields[key]
 		switch key {
 		case Settings[PourAmount]:
 			fAmount, err := strconv.ParseFloat(value, 64)
 			if err != nil {
 				return fmt.Errorf("key %s, unable to convert %v to state.balance", key, value)
 			}
-			gn.PourAmount, err = currency.ParseZCN(fAmount)
+			gn.PourAmount, err = config.ParseZCN(fAmount)
 			if err != nil {
 				return err
 			}
@@ -75,7 +77,7 @@ func (gn *GlobalNode) updateConfig(fields map[string]string) error {
 			if err != nil {
 				return fmt.Errorf("key %s, unable to convert %v to state.balance", key, value)
 			}
-			gn.MaxPourAmount, err = currency.ParseZCN(fAmount)
+			gn.MaxPourAmount, err = config.ParseZCN(fAmount)
 			if err != nil {
 				return err
 			}
@@ -84,7 +86,7 @@ func (gn *GlobalNode) updateConfig(fields map[string]string) error {
 			if err != nil {
 				return fmt.Errorf("key %s, unable to convert %v to state.balance", key, value)
 			}
-			gn.PeriodicLimit, err = currency.ParseZCN(fAmount)
+			gn.PeriodicLimit, err = config.ParseZCN(fAmount)
 			if err != nil {
 				return err
 			}
@@ -93,7 +95,7 @@ func (gn *GlobalNode) updateConfig(fields map[string]string) error {
 			if err != nil {
 				return fmt.Errorf("key %s, unable to convert %v to state.balance", key, value)
 			}
-			gn.GlobalLimit, err = currency.ParseZCN(fAmount)
+			gn.GlobalLimit, err = config.ParseZCN(fAmount)
 			if err != nil {
 				return err
 			}
@@ -120,7 +122,9 @@ func (gn *GlobalNode) updateConfig(fields map[string]string) error {
 			gn.OwnerId = value
 
 		default:
-			return gn.setCostValue(key, value)
+			if err := gn.setCostValue(key, value); err != nil {
+				return err
+			}
 		}
 	}
 	return nil
